@@ -15,6 +15,7 @@ ASSUMPTIONS = [
     'instants are integers of nanoseconds (SymTimestamp); entry may be absent (None) per asset',
     'exact real arithmetic for weights/scale; equal-weight sum checked in real arithmetic',
     'PCM composition: assumptions of C09\'s harness; builder and rebalance instants lie in exchange hours',
+    'whole sessions: concrete entry dates (before the start, exactly on a rebalance instant, one minute after it, after the end, none), symbolic market in (1,1000), universe-driven alpha with signal 1.0, long-only 5% buffer',
 ]
 DEADLINE = {'quick': 1500, 'thorough': 3400}
 NAMES = ['EQ:A', 'EQ:B', 'EQ:C']
@@ -30,10 +31,15 @@ def configs(tier):
                         bound='2 assets whose entry instants are timezone-aware in %s (the query instant is UTC): membership compares instants' % z,
                         twins=['member', 'nonmember', 'entry_equals_query']))
     out += pcm.configs_for('C19', tier)
+    from vf.props import session
+    out += session.configs_for('C19', tier)
     return out
 
 
 def make(cfg):
+    if cfg['kind'] == 'session':
+        from vf.props import session
+        return session.make(cfg)
     return Units(cfg) if cfg['kind'] == 'units' else pcm.make(cfg)
 
 
